@@ -115,8 +115,10 @@ def pipeline_case(rng, quick, micro=False, split=False):
     """one in-process 'chromosome': several GeneInfo loads (the same gene may be loaded several times, as the real
     pipeline does once per read cluster) and reads assigned to a load.
     split=True: a read cluster is cut into two sub-regions at a random position (AlignmentCollector.split_coverage_regions);
-    each sub-region loads only the genes overlapping IT, a read overlapping both sub-regions is processed in one of them:
-    the same annotated feature is then described by gene infos built from different gene subsets"""
+    each sub-region loads the genes overlapping the EXTENT of the alignments processed in it (the repaired forward_alignments;
+    the real computation of that region is corresponded at the chromosome level, `chromosome_case`), a read bridging the cut is
+    handed to both and counted through the first: the same annotated feature is still described by gene infos built from
+    different gene subsets, and the expectations of the oracle come from the WHOLE annotation"""
     d = rng.choice([0, 4, 6, 12, 1, 2]) if not micro else rng.choice([1, 2, 4])
     ann = genome_annotation(rng, micro)
     gids = sorted({t["gene"] for t in ann})
@@ -146,12 +148,21 @@ def pipeline_case(rng, quick, micro=False, split=False):
             for r in cluster:
                 inl = r["blocks"][0][0] <= cut
                 inr = r["blocks"][-1][1] > cut
-                # a read overlapping both sub-regions is processed in both, the resolver keeps one of the equal records
-                parts[left if (inl and not inr) or (inl and inr and rng.random() < 0.5) else right].append(r)
+                # a read overlapping both sub-regions (it bridges the cut) is processed in BOTH; after the repair of audit2
+                # GAP 1 both records are built against every gene the read overlaps, they are equal and the resolver keeps the
+                # FIRST one: the read is counted through the left sub-region
+                parts[left if inl else right].append(r)
+                if inl and inr:
+                    r["bridging"] = True
+                    parts[right].append(dict(r, twin=True))
             subregions = [(reg, rs) for reg, rs in parts.items() if rs]
         for reg, rs in subregions:
-            loaded = [g for g in gids if not (grange[g][1] < reg[0] or reg[1] < grange[g][0])]
-            if not loaded:
+            # repaired loading (forward_alignments): the genes overlapping the extent of the alignments processed in the
+            # sub-region, not only those overlapping the sub-region itself
+            ext = (min([reg[0]] + [r["blocks"][0][0] for r in rs]), max([reg[1]] + [r["blocks"][-1][1] for r in rs]))
+            loaded = [g for g in gids if not (grange[g][1] < ext[0] or ext[1] < grange[g][0])]
+            rs = [r for r in rs if not r.get("twin")]          # the twin record is suspended by the resolver
+            if not loaded or not rs:
                 continue
             for r in rs:
                 r["gene"] = len(loads)
@@ -264,3 +275,98 @@ def label_pairs(rng, quick):
         s = rng.randint(1, 10 ** 6)
         res.append(tuple(dict(l, id=j + 1, chr="chr1", start=s, end=s + 10) for j, l in enumerate(labs)))
     return res
+
+
+def chromosome_case(rng, quick, small=False):
+    """one chromosome for the region-splitting level (C13 chromosome model): a read cluster long enough to be cut by
+    split_coverage_regions (> 32768 bp with coverage valleys), genes scattered over it (some nested in valleys, some beyond
+    the last alignment of a sub-region), reads bridging the cuts (some of them several cuts), plus small clusters that are not
+    cut.  Alignments are [start0, stop (exclusive), flags, mapq, rid]; genes [gid, start, end]; the per-alignment answers of
+    the assigner / profile constructors are TABLES over the whole annotation: hits[rid] = [(isoform id, gene id)], marks[rid] =
+    [(gene id, start, end, +1 | -1)] - an isoform / a feature is visible to a record iff its gene is loaded.
+    A feature belongs to one gene here (label merging is the subject of the row theorems); an alignment marks only features of
+    genes it overlaps (what the real profile constructors do: `marks_local` oracle in C13.py)."""
+    alns, genes, hits, marks = [], [], {}, {}
+    rid = 0
+    pos = rng.randint(0, 5000)
+    n_cl = 1 if small else rng.randint(1, 3)
+    gid = 0
+    for c in range(n_cl):
+        big = small or rng.random() < 0.75
+        if not big:
+            # a small cluster: not cut
+            cl_start = pos
+            for _ in range(rng.randint(1, 6)):
+                s = cl_start + rng.randint(0, 800)
+                alns.append([s, s + rng.randint(50, 1500), 0, 60, rid])
+                rid += 1
+            end = max(a[1] for a in alns)
+            pos = end + rng.randint(300, 3000)
+            continue
+        # dense blocks separated by valleys of 33-60 kb crossed by 0-1 bridging reads... a valley is only a cut when its
+        # coverage is <= 1, and the cluster only stays one cluster if something crosses it: exactly one bridging read per valley
+        nblocks = rng.randint(2, 4)
+        block_spans = []
+        p = pos
+        for b in range(nblocks):
+            blen = rng.randint(1500, 6000)
+            block_spans.append((p, p + blen))
+            p += blen + rng.randint(33000, 50000)
+        for (bs, be) in block_spans:
+            for _ in range(rng.randint(3, 9)):
+                s = rng.randint(bs, be - 200)
+                alns.append([s, min(be, s + rng.randint(100, 2500)), 0, 60, rid])
+                rid += 1
+        # bridging reads: one per valley; sometimes ONE read over several valleys instead
+        v = 0
+        while v < nblocks - 1:
+            k = 1
+            if v + 2 <= nblocks - 1 and rng.random() < 0.3:
+                k = 2
+            s = rng.randint(block_spans[v][0], block_spans[v][1] - 100)
+            e = rng.randint(block_spans[v + k][0] + 50, block_spans[v + k][1])
+            alns.append([s, e, 0, 60, rid])
+            rid += 1
+            v += k
+        pos = block_spans[-1][1] + rng.randint(300, 3000)
+        # genes: inside blocks, nested in valleys, spanning several blocks
+        for (bs, be) in block_spans:
+            for _ in range(rng.randint(0, 2)):
+                s = rng.randint(bs - 500, be)
+                genes.append([gid, max(1, s), s + rng.randint(200, 4000)])
+                gid += 1
+        for b in range(nblocks - 1):
+            for _ in range(rng.randint(0, 2)):
+                s = rng.randint(block_spans[b][1] + 1000, block_spans[b + 1][0] - 3000)
+                genes.append([gid, s, s + rng.randint(200, 2000)])
+                gid += 1
+        if rng.random() < 0.5:
+            genes.append([gid, block_spans[0][0] + 100, block_spans[-1][1] - 100])
+            gid += 1
+    alns.sort(key=lambda a: (a[0], a[4]))
+    # annotated features: a few per gene, coordinates unique on the chromosome
+    used, feats = set(), {}
+    for g in genes:
+        fl = []
+        for _ in range(rng.randint(1, 4)):
+            s_ = rng.randint(g[1], g[2])
+            f = (s_, s_ + rng.randint(0, 300))
+            if f not in used:
+                used.add(f)
+                fl.append(f)
+        feats[g[0]] = fl
+    # answers: an alignment matches isoforms / marks features of genes it overlaps
+    iso = 0
+    for a in alns:
+        ov = [g for g in genes if g[1] <= a[1] - 1 and g[2] >= a[0]]
+        h, m = [], []
+        for g in ov:
+            if rng.random() < 0.5:
+                h.append([iso, g[0]])
+                iso += 1
+            for f in feats[g[0]]:
+                if rng.random() < 0.7:
+                    m.append([g[0], f[0], f[1], rng.choice([1, -1])])
+        hits[a[4]] = h
+        marks[a[4]] = m
+    return {"alns": alns, "genes": genes, "hits": [[r, hits[r]] for r in sorted(hits)], "marks": [[r, marks[r]] for r in sorted(marks)]}
